@@ -3,7 +3,7 @@ from .. import core, sx
 from ..areas import memo as A
 from ..extract import memo as xmemo
 
-OTHER_ERRNOS = ("EMSGSIZE", "EPERM", "EACCES", "EPIPE")
+OTHER_ERRNOS = ("EMSGSIZE", "EPERM", "EACCES", "EPIPE", "ENOBUFS", "EAGAIN")
 
 
 class C21(core.Check):
@@ -14,14 +14,14 @@ class C21(core.Check):
     technique = ("Lean 4 theorems over a model of the Memoer transmit tier driven by an arbitrary transport script; unreachable-errno and "
                  "would-block tables regenerated from the source by probing every platform errno; differential run of the compiled model "
                  "against the real Memoer with a scripted send()")
-    level_text = ("Proved for ALL queues, ALL transport scripts (accept n | would-block | OSError e) and ALL sequences of service calls "
-                  "(unbounded): tx_conservation (bytes accepted by the transport ++ bytes still held = the queued grams in order, minus exactly the "
-                  "grams dropped on an unreachable errno), tx_gram_atomic (every send offers a suffix of the current head gram to its own destination; "
-                  "a new gram starts only after the previous one was accepted completely or dropped), tx_no_escape (only a non-unreachable OSError "
-                  "escapes), tx_drop_only_unreachable, tx_progress / tx_liveness (a service call with work pending makes a send attempt; once the "
-                  "transport accepts everything one greedy call empties the queue; after |script|+1 greedy calls everything is sent), "
-                  "loopTx_fuel (the model's loop bound is never the reason to stop). "
-                  "The errno tables the theorems quantify over are regenerated from the source on every run.")
+    level_text = ("Proved for ALL queues, ALL transport scripts (per send call: accept n | would-block | OSError e) and ALL histories of "
+                  "serviceTxGrams / serviceTxGramsOnce / gramit calls (unbounded): tx_fifo_exact (the log of send calls is a legal transmission of the held "
+                  "grams followed by the enqueued ones: every call offers exactly the whole unsent rest of the head gram to its own destination, a gram is "
+                  "finished before the next starts, nothing lost / duplicated / reordered, and what remains is exactly .txbs then .txgs), tx_conservation "
+                  "and tx_conservation_per_dst (byte level), tx_drop_only_unreachable, tx_escape_only_unexpected_errno / tx_no_escape, tx_progress (F35: "
+                  "a pending remainder is retried even with an empty queue), tx_liveness (after |script|+1 greedy calls nothing is pending and every gram "
+                  "was sent completely or given up on unreachable), loopTx_fuel (the model's loop bound never stops the loop), wouldblock_never_drops "
+                  "(regenerated errno tables of udp/uxd Peer.send vs the unreachable tuple). Nothing is _partial.")
     level_note = ("Trusted: Lean kernel + propext/Classical.choice/Quot.sound; the translator harness/extract/memo.py (probes the real "
                   "_serviceOnceTxGrams and udp/uxd Peer.send with every errno); the sampled correspondence for the hand-written step function. "
                   "Pre-findings F34 and F35 were reproduced on the real code and repaired (fix/memo dc1c50d, e90d8ac); the model is of the fixed code.")
